@@ -307,7 +307,7 @@ func enumPlacements(c *enumCtx) {
 			}
 		}
 		for i := 0; i < nCalls && i < 20; i++ {
-			for _, uf := range []UpFault{{Fault: "err"}, {Fault: "status", Status: 500}, {Fault: "status", Status: 503}, {Fault: "status", Status: 404}, {Fault: "reset", At: 0}, {Fault: "reset", At: 20}, {Fault: "eof", At: 5}, {Fault: "reset", At: -50}, {Fault: "hang"}, {Fault: "stall5xx", Status: 503, At: 3}} {
+			for _, uf := range []UpFault{{Fault: "err"}, {Fault: "status", Status: 500}, {Fault: "status", Status: 503}, {Fault: "status", Status: 404}, {Fault: "reset", At: 0}, {Fault: "reset", At: 20}, {Fault: "eof", At: 5}, {Fault: "reset", At: -50}, {Fault: "hang"}, {Fault: "stall5xx", Status: 503, At: 3}, {Fault: "eofhuge", At: 7}} {
 				i, uf := i, uf
 				uf.Nth = i
 				singles = append(singles, func(s *Scenario) { s.UpFaults = append(s.UpFaults, uf) })
